@@ -41,7 +41,12 @@ def main():
     res.append(harmless('kernels2lean.py','res factor order',[('clifford/__init__.py',"res = value[k_list] * mult_table_vals * other_value[m_list]","res = mult_table_vals * value[k_list] * other_value[m_list]")]))
     res.append(harmless('series2lean.py','sin coefficient (-1)**n * (1/gamma)',[('clifford/taylor_expansions.py',"op = op + ((-1) ** (n) / math.gamma(2 * n + 2)) * X2np1","op = op + ((-1) ** n / math.gamma(2 * n + 2)) * X2np1")]))
     res.append(harmless('methods2lean.py','__pow__: newMV *= base',[('clifford/_multivector.py',"            newMV = newMV * base\n","            newMV *= base\n")]))
+    NB='clifford/numba/_multivector.py'
+    res.append(harmless('numba2lean.py','overloads reordered (even/odd swapped in the file)',[(NB,"@numba.extending.overload_attribute(MultiVectorType, 'even')\ndef MultiVector_even(self):\n    return MultiVector.even.fget\n\n\n@numba.extending.overload_attribute(MultiVectorType, 'odd')\ndef MultiVector_odd(self):\n    return MultiVector.odd.fget\n","@numba.extending.overload_attribute(MultiVectorType, 'odd')\ndef MultiVector_odd(self):\n    return MultiVector.odd.fget\n\n\n@numba.extending.overload_attribute(MultiVectorType, 'even')\ndef MultiVector_even(self):\n    return MultiVector.even.fget\n")]))
     CL='clifford/_conformal_layout.py'; L='clifford/_layout.py'; H='clifford/_layout_helpers.py'; I='clifford/__init__.py'
+    res.append(semantic('numba2lean.py','even overload -> odd.fget',[(NB,"def MultiVector_even(self):\n    return MultiVector.even.fget","def MultiVector_even(self):\n    return MultiVector.odd.fget")]))
+    res.append(semantic('numba2lean.py','ga_call runtime loop from 0 with &=',[(NB,"inds |= (grades == args[i])","inds &= (grades == args[i])")]))
+    res.append(semantic('numba2lean.py','mag2 overload self*~self',[(NB,"return (~self * self).value[0]","return (self * ~self).value[0]")]))
     res.append(semantic('methods2lean.py','__pow__: range(other)',[('clifford/_multivector.py',"for i in range(1, other):\n            newMV = newMV * base","for i in range(other):\n            newMV = newMV * base")]))
     res.append(semantic('methods2lean.py','__pow__: negative keeps base = self',[('clifford/_multivector.py',"            base = self.inv()\n            other = -other","            base = self\n            other = -other")]))
     res.append(semantic('methods2lean.py','__pow__: product with self',[('clifford/_multivector.py',"            newMV = newMV * base\n","            newMV = newMV * self\n")]))
